@@ -1,5 +1,6 @@
 """C07 — replay is path-independent (thin structural clauses only)."""
 from ..prims import *
+from ..guards import tokens_of_atoms
 from ..guards import check_strength
 from ..guards import find_guard, side_tokens
 
@@ -117,6 +118,25 @@ def run(ctx):
     rep.check(len(rp) == 1 and len(adv) == 1 and len(vrb) >= 1 and len(tick_assign) == 1, "C07.R1", "seek:anchors",
               "replay/advance/validate calls and the single tick assignment present",
               "replay=%d advance=%d validate=%d tick-assign=%d" % (len(rp), len(adv), len(vrb), len(tick_assign)), site=sk.loc())
+    if rp and adv:
+        # a rewind never advances in place: the in-place advance (from the cursor's own materialization) is only reached
+        # through an ORDER test of the target against the cursor's tick — otherwise a backward seek would "advance" from a
+        # state that is already past the target and report the target tick while holding the old state
+        ogk = sk.origins()
+        order_sw = []
+        for (bb, kind, a, b, res, line) in comparisons(sk):
+            k = kind.lower() if isinstance(kind, str) else kind
+            if k not in ("lt", "le", "gt", "ge"):
+                continue
+            ta, tb = tokens_of_atoms(ogk.of_operand(a, deep=True)), tokens_of_atoms(ogk.of_operand(b, deep=True))
+            # the target is parameter 2 itself; the other side reads the cursor's `tick` field (flow-insensitively it also carries p:2,
+            # because the function ends with `self.tick = target`)
+            if (ta == {"p:2"} and "f:tick" in tb) or (tb == {"p:2"} and "f:tick" in ta):
+                order_sw.append(bb)  # the block that evaluates the comparison (its result may be merged into a shared flag)
+        w_ = sk.path([0], adv, avoid_blocks=order_sw + rp) if order_sw else [0]
+        rep.check(bool(order_sw) and w_ is None, "C07.R1", "seek:rewind-never-advances-in-place", "the in-place advance is reached only through an order test target-vs-cursor tick",
+                  "seek_to can reach the in-place advance without comparing the target with the cursor's tick (%s): a rewind on a worldline that has a checkpoint at or before the "
+                  "target advances from a later state" % sk.describe_path(w_), site=sk.loc())
     if rp and adv and tick_assign:
         w = sk.path([0], tick_assign, avoid_blocks=rp + adv)
         rep.check(w is None, "C07.R1", "seek:tick-only-after-replay-or-advance", "cursor tick advanced only through a replay or an advance",
